@@ -371,8 +371,8 @@ theorem enhanceImpl_rename (hA : Agree p q ρ D) (acts : Bool) {e : Option Nat} 
 
 theorem postParse_rename {n1 n2 : Node} (R : NRel n1 n2 ρ) (ts : List Tok) :
     postParse n1 ts = postParse n2 ts := by
-  unfold postParse
-  rw [R.kind]
+  unfold postParse combineKeep
+  rw [R.kind, R.hasName]
   cases n1.kind <;> rfl
 
 theorem isStop_rename {g1 g2 : Grammar} (h : Sim g1 g2 ρ D) {e : Nat} (he : D e) :
